@@ -38,7 +38,7 @@ def det_goal(E, det):
     """exp(lad)^2 == det^2 as a polynomial identity (exact); only when the normalised numerator is not
     identically zero *and* a numerically enclosed transcendental constant occurs, to relative 1e-9."""
     lhs, rhs = tm.mul(E, E), tm.mul(det, det)
-    g, size = poly.eq_goal(lhs, rhs)
+    g, size = poly.eq_goal_reparam(sc.reg(), lhs, rhs)
     if size == 0 or not has_enclosed_const(lhs, rhs):
         return g, "poly%d" % size
     d = tm.sub(lhs, rhs)
@@ -91,7 +91,8 @@ def handle_outcome(jr, R, o, relation, path, replay_fn, signature):
         leaves = C.leaf_values(R, o.model)
         rep = replay_fn(relation, leaves)
         if rep.get("reproduced"):
-            payload = {"property": PROP, "kernel": jr["kernel"], "relation": relation, "signature": signature, "leaves": leaves, "path": path.describe() if path else None, "replay_result": rep, "replay_case": jr.get("replay_case")}
+            payload = {"property": PROP, "kernel": jr["kernel"], "relation": relation, "signature": signature, "leaves": leaves, "path": path.describe() if path else None, "replay_result": rep, "replay_case": jr.get("replay_case"),
+                       "replay_call": {"fn": "harness.C01:replay_entry", "args": {"kernel": jr["kernel"], "signature": signature, "relation": relation, "leaves": leaves}}}
             fn = "".join(ch if ch.isalnum() else "_" for ch in "%s_%s" % (jr["kernel"], relation))[:120]
             p = C.write_replay(PROP, fn, payload)
             jr["violations"].append({"kernel": jr["kernel"], "relation": relation, "signature": signature, "replay": p, "detail": rep})
@@ -162,7 +163,7 @@ def job_module(cfg):
             jr["outcomes"].append({"name": pname + "/lad-shape", "kind": "goal", "status": "sat", "s": 0.0, "expect": "unsat"})
             rep = replay_fn("lad-shape", {})
             if rep.get("reproduced"):
-                pth = C.write_replay(PROP, "".join(ch if ch.isalnum() else "_" for ch in case.name) + "_lad_shape", {"property": PROP, "kernel": case.name, "relation": "lad-shape", "replay_case": case.name, "leaves": {}, "replay_result": rep})
+                pth = C.write_replay(PROP, "".join(ch if ch.isalnum() else "_" for ch in case.name) + "_lad_shape", {"property": PROP, "kernel": case.name, "relation": "lad-shape", "replay_case": case.name, "leaves": {}, "replay_result": rep, "replay_call": {"fn": "harness.C01:replay_entry", "args": {"kernel": case.name, "signature": sig, "relation": "lad-shape", "leaves": {}}}})
                 jr["violations"].append({"kernel": case.name, "relation": "lad-shape", "signature": sig, "replay": pth, "detail": rep})
             else:
                 jr["inconclusive"].append({"query": pname + "/lad-shape", "why": "shape mismatch not reproduced", "replay": rep})
@@ -418,6 +419,13 @@ def replay_spline(kind, K, mode, relation, leaves):
         res["exception"] = "%s: %s" % (type(e).__name__, e)
         res["reproduced"] = relation.startswith("obligation") and type(e).__name__ != "InputOutsideDomain"
     return res
+
+
+def replay_entry(kernel, signature, relation, leaves):
+    if "case" in signature:
+        return replay_module(CS.by_name(signature["case"]), relation, leaves)
+    kind, mode = kernel.split("_spline/")
+    return replay_spline(kind, signature["K"], mode, relation, leaves)
 
 
 def job(cfg):
